@@ -31,9 +31,9 @@ Proof.
   assert (Hkk : kk = Z.min kz n) by (unfold kk; destruct (Z.ltb_spec n kz); lia).
   destruct (sample_loop (Z.to_nat (n - kk)) kk kk c d tape) as [[ps tape']| | |] eqn:El; try discriminate.
   inversion Hs; subst k' picks rest.
-  assert (H0 : 0 <= kk) by lia.
-  assert (H1 : kk + Z.of_nat (Z.to_nat (n - kk)) <= max_i64) by lia.
-  destruct (sample_loop_draws _ _ _ _ _ _ _ _ H0 H1 Hw Hd El) as [js [Hl [Hok Hps]]].
+  assert (Hk0 : 0 <= kk) by lia.
+  assert (Hk1 : kk + Z.of_nat (Z.to_nat (n - kk)) <= max_i64) by lia.
+  destruct (sample_loop_draws _ _ _ _ _ _ _ _ Hk0 Hk1 Hw Hd El) as [js [Hl [Hok Hps]]].
   exists js. repeat split; [exact Hl|exact Hok|rewrite Hps; reflexivity].
 Qed.
 
@@ -66,6 +66,13 @@ Section OnArray.
   Qed.
 End OnArray.
 
+Lemma firstn_map_nth (arr : list nat) : forall k, (k <= length arr)%nat ->
+  firstn k arr = map (fun t => nth t arr O) (seq 0 k).
+Proof.
+  induction arr as [|x r IH]; intros [|k] Hle; cbn [length] in Hle; try lia; try reflexivity.
+  cbn [firstn seq map nth]. f_equal. rewrite <- seq_shift, map_map. cbn [nth]. apply IH. lia.
+Qed.
+
 (* the first k' cells after Sample's picks: the reservoir over the indices, read in the original array *)
 Theorem sample_is_reservoir kz arr c d tape k' picks rest :
   Z.of_nat (length arr) <= max_i64 -> words tape -> word d ->
@@ -83,10 +90,7 @@ Proof.
   repeat split; [lia|exact Hok|exact Hps|lia|].
   rewrite Hps, fold_left_app, init_picks_id. rewrite <- Hk2.
   apply picks_run; [rewrite Hk2; exact Hok|lia|lia|reflexivity|reflexivity|].
-  (* firstn k arr = map (nth . arr) (seq 0 k) *)
-  assert (Hle : (k <= length arr)%nat) by lia. clear - Hle.
-  revert k Hle. induction arr as [|x r IH]; intros [|k] Hle; cbn [length] in Hle; try lia; try reflexivity.
-  cbn [firstn seq map nth]. f_equal. rewrite <- seq_shift, map_map. cbn [nth]. apply IH. lia.
+  apply firstn_map_nth. lia.
 Qed.
 
 (* the assignment of a round: kept paths stay, the free clients get the reservoir output over what is left *)
@@ -105,12 +109,12 @@ Proof.
   destruct (sample _ _ c d tape) as [[[n picks] rest2]| | |] eqn:Esm; try discriminate.
   destruct (_ =? 0); [discriminate|]. inversion Ha; subst asg resets rest. clear Ha.
   assert (Hlen : (length ps1 <= length fps)%nat).
-  { destruct (sticky_perm fps cs (seq 0 (length fps)) sps ps1 Es) as [Hp _].
+  { pose proof (sticky_perm fps cs (seq 0 (length fps)) sps ps1 Es) as Hp.
     apply Permutation.Permutation_length in Hp. rewrite app_length, seq_length in Hp. lia. }
   assert (Hmax1 : Z.of_nat (length ps1) <= max_i64) by lia.
   destruct (sample_is_reservoir _ _ _ _ _ _ _ _ Hmax1 Hw Hd Esm) as [js [Hl [Hok [_ [Hk Hf]]]]].
   exists js. cbv zeta in *.
-  assert (Hcs : (count_some sps <= length sps)%nat) by (unfold count_some; apply filter_length_le).
+  assert (Hcs : (count_some sps <= length sps)%nat) by (unfold count_some; clear; induction sps as [|x r IH]; cbn; [lia|destruct (is_some x); cbn; lia]).
   assert (Hk' : Z.to_nat n = Nat.min (length sps - count_some sps) (length ps1)) by (rewrite Hk; lia).
   rewrite <- Hk'. repeat split; [exact Hl| |rewrite Hf; reflexivity].
   destruct (sample_count _ _ _ _ _ _ _ _ Esm) as [Hn _]. replace (Z.of_nat (Z.to_nat n)) with n by lia. exact Hok.
